@@ -14,7 +14,11 @@
 (*   L|{els, ac, heavy, orders}                                            *)
 (***************************************************************************)
 EXTENDS Integers, Sequences, FiniteSets, TLC, SMGJson
-CONSTANTS NHeavy, SampleMod, NPerm
+CONSTANTS NHeavy, SampleMod, NPerm,
+          ElN,      \* only the first ElN of HeavyEls are used
+
+          Shape     \* "any": every connected skeleton, elements in non-decreasing order;  "path" / "ring": the chain 1-2-..-n
+                    \* (closed to a ring), elements in any order
 HeavyEls == <<6, 7, 8, 16, 15, 9>>
 Std(e) == CASE e = 1 -> {1} [] e = 6 -> {4} [] e = 7 -> {3} [] e = 8 -> {2} [] e = 9 -> {1}
             [] e = 16 -> {2, 6} [] e = 15 -> {3, 5}
@@ -22,6 +26,11 @@ Pairs == { b \in SUBSET (1..NHeavy) : Cardinality(b) = 2 }
 RECURSIVE Reach(_, _)
 Reach(B, S) == LET T == S \cup { x \in 1..NHeavy : \E y \in S : {x, y} \in B } IN IF T = S THEN S ELSE Reach(B, T)
 Connected(B) == Reach(B, {1}) = 1..NHeavy
+
+Chain == { {i, i + 1} : i \in 1..(NHeavy - 1) }
+Skeletons == CASE Shape = "path" -> { Chain }
+               [] Shape = "ring" -> { Chain \cup { {1, NHeavy} } }
+               [] OTHER -> { x \in SUBSET Pairs : Connected(x) }
 
 VARIABLES ph, el, bo, tv, pk  \* phase; elements (index into HeavyEls, nondecreasing); bond orders; target valences; permutation number
 vars == <<ph, el, bo, tv, pk>>
@@ -34,13 +43,19 @@ Code(e, b, t, k) == (Cardinality(DOMAIN b) * 37 + e[1] * 5 + e[NHeavy] * 11 + Va
 Init == ph = 0 /\ el = <<>> /\ bo = <<>> /\ tv = <<>> /\ pk = 0
 PickSkeleton ==
    /\ ph = 0 /\ ph' = 1
-   /\ el' \in { f \in [1..NHeavy -> 1..Len(HeavyEls)] : \A i \in 1..(NHeavy - 1) : f[i] <= f[i + 1] }
-   /\ \E B \in { x \in SUBSET Pairs : Connected(x) } : bo' = [b \in B |-> 1]
+   /\ el' \in { f \in [1..NHeavy -> 1..ElN] : Shape # "any" \/ \A i \in 1..(NHeavy - 1) : f[i] <= f[i + 1] }
+   /\ \E B \in Skeletons : bo' = [b \in B |-> 1]
    /\ UNCHANGED <<tv, pk>>
 PickOrders ==
    /\ ph = 1 /\ ph' = 2 /\ UNCHANGED el
    /\ bo' \in [DOMAIN bo -> 1..3]
-   /\ tv' \in { f \in [1..NHeavy -> 1..6] : \A a \in 1..NHeavy : f[a] \in Std(HeavyEls[el[a]]) /\ f[a] >= ValSum(bo', a) }
+   /\ \E hi \in [1..NHeavy -> BOOLEAN] :        \* an element has at most two standard valences: the lower or the higher one
+         LET S(a) == Std(HeavyEls[el[a]])
+             Lo(a) == CHOOSE v \in S(a) : \A w \in S(a) : v <= w
+             Hi(a) == CHOOSE v \in S(a) : \A w \in S(a) : v >= w
+             t == [a \in 1..NHeavy |-> IF hi[a] THEN Hi(a) ELSE Lo(a)] IN
+         /\ \A a \in 1..NHeavy : (hi[a] => Hi(a) # Lo(a)) /\ t[a] >= ValSum(bo', a)
+         /\ tv' = t
    /\ pk' \in 0..(NPerm - 1)
    /\ (SampleMod <= 1 \/ Code(el, bo', tv', pk') % SampleMod = 0)
 Next == PickSkeleton \/ PickOrders
